@@ -5,11 +5,13 @@
 package lib
 
 import (
+	"encoding/json"
 	"errors"
 	"fmt"
 	"runtime/debug"
 	"strings"
 
+	"github.com/goark/errs"
 	"github.com/goark/go-cvss/cvsserr"
 	m2 "github.com/goark/go-cvss/v2/metric"
 	m3 "github.com/goark/go-cvss/v3/metric"
@@ -805,4 +807,69 @@ func ErrText(err error) (s string) {
 		}
 	}()
 	return err.Error()
+}
+
+// ErrForeign is the cause a client attaches to errors it received (Annotate).
+var ErrForeign = errors.New("verif-foreign-cause")
+
+// Annotate does what a client may do with an error value it received: every *errs.Error of the chain
+// gets a context entry and a cause of the client's own.  Returns the number of annotated values.
+func Annotate(err error) (n int) {
+	defer func() { recover() }()
+	for e := err; e != nil && n < 16; {
+		next := errors.Unwrap(e)
+		if x, ok := e.(*errs.Error); ok && x != nil {
+			x.SetContext("verif-annotated", "by the client")
+			x.SetCause(ErrForeign)
+			n++
+		}
+		e = next
+	}
+	return n
+}
+
+// Annotated reports whether err shows an annotation made by Annotate (on some other error value).
+func Annotated(err error) (yes bool) {
+	if err == nil {
+		return false
+	}
+	defer func() { recover() }()
+	if errors.Is(err, ErrForeign) {
+		return true
+	}
+	return strings.Contains(fmt.Sprintf("%v|%+v", err, err), "verif-")
+}
+
+// JSONRoundTrip persists a v3 object with encoding/json and restores it into a zero struct (all metric
+// fields and the embedded pointers are exported).  ok is false for v2 objects (their encoding depends on
+// unexported bookkeeping that a restore cannot bring back) and when either step fails.
+func JSONRoundTrip(o Obj) (c Obj, ok bool) {
+	defer func() {
+		if recover() != nil {
+			ok = false
+		}
+	}()
+	c = Obj{Kind: o.Kind}
+	var b []byte
+	var err error
+	switch o.Kind {
+	case K3B:
+		if b, err = json.Marshal(o.B3); err == nil {
+			c.B3 = new(m3.Base)
+			err = json.Unmarshal(b, c.B3)
+		}
+	case K3T:
+		if b, err = json.Marshal(o.T3); err == nil {
+			c.T3 = new(m3.Temporal)
+			err = json.Unmarshal(b, c.T3)
+		}
+	case K3E:
+		if b, err = json.Marshal(o.E3); err == nil {
+			c.E3 = new(m3.Environmental)
+			err = json.Unmarshal(b, c.E3)
+		}
+	default:
+		return c, false
+	}
+	return c, err == nil
 }
